@@ -167,6 +167,19 @@ CLAIMED["C19"] = dict(
     technique="bounded runtime-contract check on a register-machine model (stand-in) + discharged contracts on RegisterStack (representation invariant)",
 )
 
+CLAIMED["C02"] = dict(
+    category="exploration",
+    text="Bounded: seeded programs (multi-block regions, forward references, values from enclosing regions, successors, nested regions) x every clone "
+         "entry point (Operation.clone, clone_without_regions, Region.clone, Region.clone_into into destinations with 0/1/2 blocks at every index, "
+         "ModulePass.apply_to_clone): the copy is isomorphic to the source (independent oracle), inside references point into the copy and outside "
+         "references are unchanged, the source and the pre-existing destination IR are untouched (text + structural invariants), edits of the copy are "
+         "invisible in the source. Additionally Operation.clone_without_regions is under a discharged contract (operand/successor remapping through the "
+         "mappers, dictionaries copied not shared, results registered, frame) for symbolic list lengths. Exploration is the honest level for the tree-level statement.",
+    note="Bounded stand-in for the whole-tree statement, never counted as proved; Operation.create trusted in the kernel proof; recursion of clone/clone_into not proved.",
+    design="§4 C02",
+    technique="bounded runtime-contract check with independent isomorphism oracle (stand-in) + discharged contract on clone_without_regions",
+)
+
 NOT_APPLICABLE = {
     "C04": "whole Printer∘Parser composition over every dialect: recursive string programs; no per-function contract within reach of the SMT-backed generator expresses it",
     "C05": "about 80 dialects of hand-written print/parse pairs and a format-string interpreter; same obstacle as C04",
@@ -180,7 +193,7 @@ NOT_APPLICABLE = {
     "C28": "result preservation of an e-graph pipeline: whole-program statement with no per-function postcondition implying it",
 }
 
-NOT_REACHED = ["C02", "C06", "C09", "C11", "C14", "C18", "C25"]
+NOT_REACHED = ["C06", "C09", "C11", "C14", "C18", "C25"]
 
 
 def main():
